@@ -80,7 +80,7 @@ META = {
     },
     "C07": {
         "engine": "box-controller",
-        "text": "Admissibility oracle at every quiescent point: for every pending LoadBalancer service the oracle searches by brute force over the tiny pools for an admissible assignment (explicit addresses / explicit pool / auto-assign pools; free or certainly shareable addresses); finding one is a violation, named after the event that made it admissible.",
+        "text": "Admissibility oracle at every quiescent point: for every pending LoadBalancer service the oracle searches by brute force over the tiny pools for an admissible assignment (explicit addresses / explicit pool / auto-assign pools; free or certainly shareable addresses); finding one is a violation, named after the event that made it admissible. A third of the histories inject failing status writes throughout (before / after apply) with user events aimed at the service whose write just failed.",
         "design_ref": "DESIGN.md 2/C07",
         "note": _BOX_NOTE,
         "technique": "runtime monitoring: brute-force admissibility oracle at quiescence",
@@ -108,7 +108,7 @@ META = {
     },
     "C11": {
         "engine": "box-controller",
-        "text": "After every allocator operation / handler return: the bookkeeping must equal that of a fresh allocator rebuilt from the surviving assignments; per pool the counters must equal the distinct in-use addresses and assigned+available the oracle's usable count (math/big, saturating), never negative; every released address is probed (assign + unassign of a probe service must succeed and leave no trace).",
+        "text": "After every allocator operation / handler return: the bookkeeping must equal that of a fresh allocator rebuilt from the surviving assignments; per pool the counters must equal the distinct in-use addresses and assigned+available the oracle's usable count (math/big, saturating), never negative; every released address is probed (assign + unassign of a probe service must succeed and leave no trace); the real PoolStatusReconciler writes IPAddressPool.status, which must equal the counters at quiescence, and the counters read at the moment of a pool's last change notification must be the final ones.",
         "design_ref": "DESIGN.md 2/C11",
         "note": _BOX_NOTE,
         "technique": "runtime monitoring: rebuild-and-compare + counting oracle + release probes on hooked allocator state",
@@ -122,7 +122,7 @@ META = {
     },
     "C13": {
         "engine": "l2-linearizability",
-        "text": "Concurrent histories (3 mutators, 2 requesters, 1 gratuitous spammer) on the real Announce + arpResponder.processRequest over an in-memory PacketConn are recorded at the boundary with one logical clock and checked with porcupine against a sequential model (who holds which address with which interface scope); never-answer frames, refcounts at quiescent points and silence after the last withdraw are checked directly; all under the race detector.",
+        "text": "Concurrent histories (3 mutators, 2 requesters, 1 gratuitous spammer) on the real Announce + arpResponder.processRequest over an in-memory PacketConn are recorded at the boundary with one logical clock and checked with porcupine against a sequential model (who holds which address with which interface scope); never-answer frames, refcounts at quiescent points and silence after the last withdraw are checked directly; all under the race detector. Second run (speaker box): the real speaker controller + layer-2 announcer driven by event histories; at every quiescent point every held (service, address) must be an address the Service has, with the interface scope the selecting L2Advertisements ask for, and the per-interface answer must be exactly 'some held scope covers it'.",
         "design_ref": "DESIGN.md 2/C13",
         "note": "Trusted: porcupine v1.3.0; the harness's ARP codec. NDP only through the shouldAnnounce decision; the real spamLoop cadence is not waited for.",
         "technique": "runtime monitoring: linearizability checking of recorded concurrent histories (porcupine) + race detector",
@@ -150,21 +150,21 @@ META = {
     },
     "C17": {
         "engine": "bgp-session",
-        "text": "The real native session (run / connect / sendUpdates / abort / Close) talks over loopback TCP to a scripted peer that decodes every message into a routing table and injects faults at scripted points (drop idle, between messages, inside a message, during OPEN; stall reading; wrong ASN for the first attempts; held OPEN reply). Oracle: bounded-progress convergence of the table to the last requested set, every announced route was requested by an earlier Set, each new connection starts with a full re-send, a wrong-ASN peer receives nothing after its OPEN, nothing happens after Close returned. Under the race detector.",
+        "text": "The real native session (run / connect / sendUpdates / abort / Close) talks over loopback TCP to a scripted peer that decodes every message into a routing table and injects faults at scripted points (drop idle, between messages, inside a message, during OPEN; stall reading; wrong ASN for the first attempts; held OPEN reply). Oracle: bounded-progress convergence of the table to the last requested set, every announced route was requested by an earlier Set, each new connection starts with a full re-send, a wrong-ASN peer (also AS_TRANS without capability) receives nothing after its OPEN, nothing happens after Close returned; the four-octet capability is scripted per connection and every connection is decoded in the form its OPEN asked for. Under the race detector.",
         "design_ref": "DESIGN.md 2/C17",
         "note": "Eventually is decided as bounded progress with the starvation canary and a canary-clean confirmation period; expiry under starvation is inconclusive.",
         "technique": "runtime monitoring with fault injection: scripted peer, table comparison, race detector",
     },
     "C18": {
         "engine": "conversion",
-        "text": "For generated snapshots (3-5 objects per kind, several pools pinned to one namespace by name and by selector) toConfig is evaluated on every pool permutation x seeded shuffles of all other kinds and 20 repetitions; all values must be reflect.DeepEqual and acceptance identical; the real ConfigReconciler / PoolReconciler reconcile an unchanged store with shuffled List order and must call the handler exactly once per distinct snapshot.",
+        "text": "For generated snapshots (3-5 objects per kind, several pools pinned to one namespace by name and by selector) toConfig is evaluated on every pool permutation x seeded shuffles of all other kinds and 20 repetitions; all values must be reflect.DeepEqual and acceptance identical; the real ConfigReconciler / PoolReconciler reconcile an unchanged store with shuffled List order and must call the handler exactly once per distinct snapshot. The controller and speaker boxes count handler calls for unchanged resources over whole event histories (a consumer that writes into the shared configuration makes every event look like a change); native sessions are run against the scripted peer and must leave what their parameters point to untouched.",
         "design_ref": "DESIGN.md 2/C18",
         "note": "Trusted: reflect.DeepEqual as the notion of equality (it is the reconcilers' own). Error texts are not compared.",
         "technique": "runtime monitoring: metamorphic (permutation / repetition) equality oracle + handler-call counting",
     },
     "C19": {
         "engine": "debounce",
-        "text": "The real debouncers (frr: 20 ms / 15 ms retry; frr-k8s variant with the real FRRK8sReconciler on a fake client) are driven with submission scripts (new / identical / revert / re-apply, gaps around the debounce interval, concurrent re-apply requests) and enumerated failure patterns of length <= 6; an offline checker over the stamped event log decides: applied config within the submission window, never backwards, retry after failure without new submission, last success == last submission (bounded progress with starvation canary), submitters return, identical resubmission causes no reload, bursts coalesce.",
+        "text": "The real debouncers (frr: 20 ms / 15 ms retry; frr-k8s variant with the real FRRK8sReconciler on a fake client) are driven with submission scripts (new / identical / revert / re-apply, gaps around the debounce interval, concurrent re-apply requests) and enumerated failure patterns of length <= 6; an offline checker over the stamped event log decides: applied config within the submission window, never backwards, retry after failure without new submission, last success == last submission (bounded progress with starvation canary), submitters return, identical resubmission causes no reload, bursts coalesce. Session-manager variant: the real FRR sessionManager (Set / SyncBFDProfiles / Close) feeds the real debouncer; at every idle point the text applied last must equal a fresh render of the submitted state and identical re-submissions must not reload.",
         "design_ref": "DESIGN.md 2/C19",
         "note": "Eventually is decided as bounded progress (100x the interval; inconclusive if the canary saw starvation). reloadValidator's status file path is a constant and is not exercised.",
         "technique": "runtime monitoring: offline trace checker over recorded submit/apply events with injected reload failures + race detector",
@@ -173,7 +173,7 @@ META = {
         "engine": "race-replay",
         "text": "4-6 driver goroutines deliver service / pool (controller) and service / configuration / node (speaker) events through the real k8s.Listener while fetchers call CountersForPool, Announce.GetStatus (reading the advertisements the way the Layer2StatusReconciler does) and PeersForService (iterating the set) and consumers drain the callbacks; the Go race detector watches; panics and deadlocks are caught; the effective handler order, logged from inside the Listener lock, is replayed serially on fresh instances and allocator state, status writes, layer-2 announcements, sessions and PeersForService must be equal.",
         "design_ref": "DESIGN.md 2/C20",
-        "note": "Race-detector silence covers the executed interleavings only. Deadlock = no progress within 120 s (inconclusive, with goroutine dump).",
+        "note": "Race-detector silence covers the executed interleavings only. Deadlock = no progress within 60 s with drivers parked inside MetalLB behind a Listener handler (violation, with the goroutine dump); no progress without that picture is inconclusive.",
         "technique": "sanitizer (Go race detector) + serial replay in recorded lock order",
     },
 }
